@@ -7,6 +7,7 @@ CONSTANTS
   MaxReads = 3
   Refs <- RefsTwo
   UMIs = {1}
+  Sites = {7}
   Cap = 1
   MaxNs1 = {0}
   Variant = "design"
